@@ -144,21 +144,25 @@ def grep_forbidden(files: list[str]) -> list[str]:
     return hits
 
 
-def audit(prop: str) -> dict:
-    """#print axioms for every theorem in Props/<prop>.lean + forbidden-token grep on its closure."""
-    module = f"Aiortc.Props.{prop}"
-    props_file = os.path.join(LEAN_DIR, "Aiortc", "Props", f"{prop}.lean")
-    names = theorem_names(props_file)
+def audit(prop: str, files: list[str] | None = None) -> dict:
+    """#print axioms for every theorem in Props/<f>.lean (f in `files`, default [prop]) + forbidden-token
+    grep on the import closure."""
+    files = files or [prop]
+    modules = [f"Aiortc.Props.{f}" for f in files]
+    names = []
+    for f in files:
+        names += theorem_names(os.path.join(LEAN_DIR, "Aiortc", "Props", f"{f}.lean"))
     res = {"theorems": names, "bad_axioms": {}, "forbidden": [], "ok": False, "output": ""}
     if not names:
         res["output"] = "no theorems found"
         return res
-    res["forbidden"] = grep_forbidden(import_closure(module))
+    res["forbidden"] = grep_forbidden(import_closure(modules))
     audit_dir = os.path.join(LEAN_DIR, ".lake", "audit")
     os.makedirs(audit_dir, exist_ok=True)
     audit_file = os.path.join(audit_dir, f"Audit_{prop}_{os.getpid()}.lean")
     with open(audit_file, "w") as f:
-        f.write(f"import {module}\n")
+        for module in modules:
+            f.write(f"import {module}\n")
         for n in names:
             f.write(f"#print axioms {n}\n")
     try:
